@@ -78,116 +78,7 @@ theorem foldl_insertDc_sorted : ∀ (layout : List (Nat × List Nat)) (acc : Dcs
         subst ha
         exact hs.1 q.1 (List.mem_map.2 ⟨q, hq, rfl⟩)
 
-/-! ### One entry per address -/
-
-theorem keepFirstAddr_spec : ∀ (ms : List MemberDc) (seen : List Nat),
-    ((keepFirstAddr ms seen).map (·.2.1)).Nodup ∧ (∀ m ∈ keepFirstAddr ms seen, m.2.1 ∉ seen) ∧
-    (∀ m ∈ keepFirstAddr ms seen, m ∈ ms)
-  | [], _ => by simp [keepFirstAddr]
-  | m :: ms, seen => by
-    simp only [keepFirstAddr]
-    split
-    · obtain ⟨h1, h2, h3⟩ := keepFirstAddr_spec ms seen
-      exact ⟨h1, h2, fun x hx => List.mem_cons_of_mem _ (h3 x hx)⟩
-    · rename_i hc
-      obtain ⟨h1, h2, h3⟩ := keepFirstAddr_spec ms (m.2.1 :: seen)
-      refine ⟨?_, ?_, ?_⟩
-      · rw [List.map_cons, List.nodup_cons]
-        refine ⟨?_, h1⟩
-        intro hm
-        obtain ⟨x, hx, hxe⟩ := List.mem_map.1 hm
-        exact h2 x hx (by rw [hxe]; exact List.mem_cons_self)
-      · intro x hx
-        rcases List.mem_cons.1 hx with rfl | hx
-        · intro hin; exact hc (List.contains_iff_mem.2 hin)
-        · intro hin; exact h2 x hx (List.mem_cons_of_mem _ hin)
-      · intro x hx
-        rcases List.mem_cons.1 hx with rfl | hx
-        · exact List.mem_cons_self
-        · exact List.mem_cons_of_mem _ (h3 x hx)
-
-theorem eq_of_nodup_addr (l : List MemberDc) (h : (l.map (·.2.1)).Nodup) (a b : MemberDc)
-    (ha : a ∈ l) (hb : b ∈ l) (e : a.2.1 = b.2.1) : a = b := by
-  induction l with
-  | nil => cases ha
-  | cons x xs ih =>
-    simp only [List.map_cons, List.nodup_cons] at h
-    rcases List.mem_cons.1 ha with ea | ha' <;> rcases List.mem_cons.1 hb with eb | hb'
-    · rw [ea, eb]
-    · exact absurd (List.mem_map.2 ⟨b, hb', by rw [← e, ea]⟩) h.1
-    · exact absurd (List.mem_map.2 ⟨a, ha', by rw [e, eb]⟩) h.1
-    · exact ih h.2 ha' hb'
-
-/-- The address lists of distinct data centres, taken out of a member list without repeated
-addresses, share nothing and repeat nothing. -/
-theorem flatten_by_dc_nodup (kept : List MemberDc) (hk : (kept.map (·.2.1)).Nodup) :
-    ∀ dcs : List Nat, dcs.Nodup →
-    ((dcs.map (fun d => (kept.filter (fun m => m.2.2 == d)).map (·.2.1))).flatten).Nodup
-  | [], _ => by simp
-  | d :: ds, hd => by
-    rw [List.nodup_cons] at hd
-    simp only [List.map_cons, List.flatten_cons]
-    rw [List.nodup_append]
-    refine ⟨List.Nodup.sublist (List.Sublist.map _ List.filter_sublist) hk, flatten_by_dc_nodup kept hk ds hd.2, ?_⟩
-    intro a ha b hb hab
-    obtain ⟨m, hm, rfl⟩ := List.mem_map.1 ha
-    obtain ⟨l, hl, hbl⟩ := List.mem_flatten.1 hb
-    obtain ⟨d', hd', rfl⟩ := List.mem_map.1 hl
-    obtain ⟨m', hm', rfl⟩ := List.mem_map.1 hbl
-    obtain ⟨hm1, hm2⟩ := List.mem_filter.1 hm
-    obtain ⟨hm1', hm2'⟩ := List.mem_filter.1 hm'
-    have : m = m' := eq_of_nodup_addr kept hk m m' hm1 hm1' hab
-    subst this
-    simp only [beq_iff_eq] at hm2 hm2'
-    exact hd.1 (by rw [← hm2, hm2']; exact hd')
-
-/-- **dcLayout_wf**: for EVERY membership snapshot — any member ids, addresses and data centres,
-two ids at one address included — the map the watcher installs in the selector is well-formed:
-distinct data-centre names, every address once. -/
-theorem dcLayout_wf (a : Actor) (ms : List MemberDc) : WF (setNodes a (dcLayout ms)).dcs := by
-  have hsorted := dcs_sorted ((keepFirstAddr (sortById ms) []).map (·.2.2))
-  have hk := (keepFirstAddr_spec (sortById ms) []).1
-  generalize hkept : keepFirstAddr (sortById ms) [] = kept at hsorted hk
-  generalize hdcs : (kept.map (·.2.2)).foldr insertNat [] = dcs at hsorted
-  have hlay : dcLayout ms = dcs.map (fun d => (d, (kept.filter (fun m => m.2.2 == d)).map (·.2.1))) := by
-    unfold dcLayout; simp only [hkept, hdcs]
-  have hids : ((dcLayout ms).map (·.1)) = dcs := by
-    rw [hlay, List.map_map]
-    have : ((fun p : Nat × List Nat => p.1) ∘ fun d => (d, (kept.filter (fun m => m.2.2 == d)).map (·.2.1))) = id := rfl
-    rw [this, List.map_id]
-  have hfold : (setNodes a (dcLayout ms)).dcs = (dcLayout ms).map (fun p => (p.1, ⟨0, p.2⟩)) := by
-    unfold setNodes
-    simp only
-    rw [foldl_insertDc_sorted (dcLayout ms) [] (by rw [hids]; exact hsorted) (by intro a ha; cases ha)]
-    simp
-  have hnd : dcs.Nodup := hsorted.imp (fun h => Nat.ne_of_lt h)
-  constructor
-  · rw [hfold, List.map_map]
-    have : ((fun p : Nat × Cycler => p.1) ∘ fun p : Nat × List Nat => (p.1, (⟨0, p.2⟩ : Cycler))) = (·.1) := rfl
-    rw [this, hids]; exact hnd
-  · unfold allNodes
-    rw [hfold, List.map_map, hlay, List.map_map]
-    exact flatten_by_dc_nodup kept hk dcs hnd
-
-/-- **wired_selection_sound**: whatever the membership snapshot, a successful selection from the map
-the watcher installed has no duplicates, excludes the local node, lies in that map and has the size
-the level requires (`select_sound` with `WF` discharged). `hl`: the local data centre is in the map
-(the snapshot contains the local member, first at its address). -/
-theorem wired_selection_sound (a : Actor) (ms : List MemberDc) (lvl : Level) (choice : List Nat)
-    (hl : ∃ c, getDc (setNodes a (dcLayout ms)).dcs a.localDc = some c)
-    (hchoice : ∀ n, (lvl = .one → n = 1) → (lvl = .two → n = 2) → (lvl = .three → n = 3) →
-      (lvl = .one ∨ lvl = .two ∨ lvl = .three) → GoodChoice (setNodes a (dcLayout ms)).dcs n choice) :
-    let b := setNodes a (dcLayout ms)
-    ∀ ns, (selectNodes b.local_ b.localDc b.total b.dcs lvl choice).1 = .ok ns →
-      ns.Nodup ∧ b.local_ ∉ ns ∧ (∀ x ∈ ns, x ∈ allNodes b.dcs) ∧
-      ns.length ≥ required lvl b.local_ b.localDc b.total b.dcs := by
-  intro b ns hns
-  have hsnd := select_sound b.local_ b.localDc b.total b.dcs lvl choice (dcLayout_wf a ms) hl hchoice
-  obtain ⟨h1, h2, h3, h4, _⟩ := hsnd.2.2 ns hns
-  exact ⟨h1, h2, h3, h4⟩
-
-
-/-! ### The local data centre is in the installed map -/
+/-! ### Members in id order -/
 
 theorem mem_insertById (m x : MemberDc) : ∀ l : List MemberDc, x ∈ insertById m l → x = m ∨ x ∈ l
   | [], h => by simp [insertById] at h; exact Or.inl h
@@ -303,31 +194,246 @@ theorem sortById_spec (ms : List MemberDc) (hid : (ms.map (·.1)).Nodup) :
         · exact Or.inl (mem_insertById_self x acc)
         · exact Or.inr h
 
-/-- In an id-sorted list, a member that is the first at its address (no member with a smaller id
-has it) survives `keepFirstAddr`. -/
-theorem keepFirstAddr_keeps : ∀ (l : List MemberDc) (seen : List Nat) (m : MemberDc),
-    l.Pairwise (fun a b => a.1 < b.1) → m ∈ l → m.2.1 ∉ seen →
-    (∀ x ∈ l, x.2.1 = m.2.1 → m.1 ≤ x.1) → m ∈ keepFirstAddr l seen
-  | [], _, _, _, h, _, _ => by cases h
-  | y :: ys, seen, m, hs, hm, hseen, hfirst => by
+theorem sortById_sorted (ms : List MemberDc) : (sortById ms).Pairwise (fun a b => a.1 < b.1) := by
+  unfold sortById
+  suffices h : ∀ (l acc : List MemberDc), acc.Pairwise (fun a b => a.1 < b.1) →
+      (l.foldl (fun acc m => insertById m acc) acc).Pairwise (fun a b => a.1 < b.1) from h ms [] List.Pairwise.nil
+  intro l
+  induction l with
+  | nil => intro acc h; exact h
+  | cons m rest ih => intro acc h; exact ih _ (insertById_sorted m acc h)
+
+/-! ### One entry per address -/
+
+/-- On an id-sorted list whose local member (if listed) has its address in `seen`: the kept members
+have pairwise different addresses, the kept NON-local members have addresses outside `seen`, and
+the local member is always kept. -/
+theorem keepFirstAddr_spec (self : Nat) : ∀ (l : List MemberDc) (seen : List Nat),
+    l.Pairwise (fun a b => a.1 < b.1) → (∀ m ∈ l, m.1 = self → m.2.1 ∈ seen) →
+    ((keepFirstAddr self l seen).map (·.2.1)).Nodup ∧
+    (∀ m ∈ keepFirstAddr self l seen, m.1 ≠ self → m.2.1 ∉ seen) ∧
+    (∀ m ∈ keepFirstAddr self l seen, m ∈ l) ∧
+    (∀ m ∈ l, m.1 = self → m ∈ keepFirstAddr self l seen)
+  | [], _, _, _ => by simp [keepFirstAddr]
+  | m :: ms, seen, hs, hself => by
     rw [List.pairwise_cons] at hs
     simp only [keepFirstAddr]
-    rcases List.mem_cons.1 hm with rfl | hm'
-    · rw [if_neg (by intro hc; exact hseen (List.contains_iff_mem.1 hc))]
-      exact List.mem_cons_self
-    · have hlt : y.1 < m.1 := hs.1 m hm'
-      have hne : y.2.1 ≠ m.2.1 := by
-        intro he
-        have := hfirst y List.mem_cons_self he
-        omega
-      split
-      · exact keepFirstAddr_keeps ys seen m hs.2 hm' hseen (fun x hx => hfirst x (List.mem_cons_of_mem _ hx))
-      · refine List.mem_cons_of_mem _ (keepFirstAddr_keeps ys (y.2.1 :: seen) m hs.2 hm' ?_
-          (fun x hx => hfirst x (List.mem_cons_of_mem _ hx)))
-        intro hin
-        rcases List.mem_cons.1 hin with h | h
-        · exact hne h.symm
-        · exact hseen h
+    split
+    · rename_i hc
+      simp only [Bool.and_eq_true, bne_iff_ne, ne_eq] at hc
+      obtain ⟨h1, h2, h3, h4⟩ := keepFirstAddr_spec self ms seen hs.2
+        (fun x hx hxs => hself x (List.mem_cons_of_mem _ hx) hxs)
+      refine ⟨h1, h2, fun x hx => List.mem_cons_of_mem _ (h3 x hx), ?_⟩
+      intro x hx hxs
+      rcases List.mem_cons.1 hx with rfl | hx
+      · exact absurd hxs hc.1
+      · exact h4 x hx hxs
+    · rename_i hc
+      have hkeep : m.1 = self ∨ m.2.1 ∉ seen := by
+        by_cases hm : m.1 = self
+        · exact Or.inl hm
+        · right
+          intro hin
+          apply hc
+          simp only [Bool.and_eq_true, bne_iff_ne, ne_eq]
+          exact ⟨hm, List.contains_iff_mem.2 hin⟩
+      obtain ⟨h1, h2, h3, h4⟩ := keepFirstAddr_spec self ms (m.2.1 :: seen) hs.2
+        (fun x hx hxs => List.mem_cons_of_mem _ (hself x (List.mem_cons_of_mem _ hx) hxs))
+      refine ⟨?_, ?_, ?_, ?_⟩
+      · rw [List.map_cons, List.nodup_cons]
+        refine ⟨?_, h1⟩
+        intro hm
+        obtain ⟨x, hx, hxe⟩ := List.mem_map.1 hm
+        by_cases hxs : x.1 = self
+        · -- `x` is the local member, later in the list than `m`
+          have hxl : x ∈ ms := h3 x hx
+          have hlt : m.1 < x.1 := hs.1 x hxl
+          rcases hkeep with hm1 | hm2
+          · omega
+          · exact hm2 (hxe ▸ hself x (List.mem_cons_of_mem _ hxl) hxs)
+        · exact h2 x hx hxs (by rw [hxe]; exact List.mem_cons_self)
+      · intro x hx hxs
+        rcases List.mem_cons.1 hx with rfl | hx
+        · rcases hkeep with h | h
+          · exact absurd h hxs
+          · exact h
+        · intro hin; exact h2 x hx hxs (List.mem_cons_of_mem _ hin)
+      · intro x hx
+        rcases List.mem_cons.1 hx with rfl | hx
+        · exact List.mem_cons_self
+        · exact List.mem_cons_of_mem _ (h3 x hx)
+      · intro x hx hxs
+        rcases List.mem_cons.1 hx with rfl | hx
+        · exact List.mem_cons_self
+        · exact List.mem_cons_of_mem _ (h4 x hx hxs)
+
+/-- The local member's address is in the seed of `dcLayout`. -/
+theorem selfAddr_covers (self : Nat) (l : List MemberDc) (hs : l.Pairwise (fun a b => a.1 < b.1)) :
+    ∀ m ∈ l, m.1 = self → m.2.1 ∈ selfAddr self l := by
+  intro m hm hms
+  unfold selfAddr
+  cases hf : l.find? (fun x => x.1 == self) with
+  | none =>
+    have := List.find?_eq_none.1 hf m hm
+    simp [hms] at this
+  | some x =>
+    have hx := List.mem_of_find?_eq_some hf
+    have hxs : x.1 = self := by simpa using List.find?_some hf
+    -- ids are distinct in a strictly sorted list: `x = m`
+    have : x = m := by
+      clear hf
+      induction l with
+      | nil => cases hm
+      | cons y ys ih =>
+        rw [List.pairwise_cons] at hs
+        rcases List.mem_cons.1 hx with rfl | hx' <;> rcases List.mem_cons.1 hm with rfl | hm'
+        · rfl
+        · have := hs.1 m hm'; omega
+        · have := hs.1 x hx'; omega
+        · exact ih hs.2 hm' hx'
+    simp [this]
+
+theorem eq_of_nodup_addr (l : List MemberDc) (h : (l.map (·.2.1)).Nodup) (a b : MemberDc)
+    (ha : a ∈ l) (hb : b ∈ l) (e : a.2.1 = b.2.1) : a = b := by
+  induction l with
+  | nil => cases ha
+  | cons x xs ih =>
+    simp only [List.map_cons, List.nodup_cons] at h
+    rcases List.mem_cons.1 ha with ea | ha' <;> rcases List.mem_cons.1 hb with eb | hb'
+    · rw [ea, eb]
+    · exact absurd (List.mem_map.2 ⟨b, hb', by rw [← e, ea]⟩) h.1
+    · exact absurd (List.mem_map.2 ⟨a, ha', by rw [e, eb]⟩) h.1
+    · exact ih h.2 ha' hb'
+
+/-- The address lists of distinct data centres, taken out of a member list without repeated
+addresses, share nothing and repeat nothing. -/
+theorem flatten_by_dc_nodup (kept : List MemberDc) (hk : (kept.map (·.2.1)).Nodup) :
+    ∀ dcs : List Nat, dcs.Nodup →
+    ((dcs.map (fun d => (kept.filter (fun m => m.2.2 == d)).map (·.2.1))).flatten).Nodup
+  | [], _ => by simp
+  | d :: ds, hd => by
+    rw [List.nodup_cons] at hd
+    simp only [List.map_cons, List.flatten_cons]
+    rw [List.nodup_append]
+    refine ⟨List.Nodup.sublist (List.Sublist.map _ List.filter_sublist) hk, flatten_by_dc_nodup kept hk ds hd.2, ?_⟩
+    intro a ha b hb hab
+    obtain ⟨m, hm, rfl⟩ := List.mem_map.1 ha
+    obtain ⟨l, hl, hbl⟩ := List.mem_flatten.1 hb
+    obtain ⟨d', hd', rfl⟩ := List.mem_map.1 hl
+    obtain ⟨m', hm', rfl⟩ := List.mem_map.1 hbl
+    obtain ⟨hm1, hm2⟩ := List.mem_filter.1 hm
+    obtain ⟨hm1', hm2'⟩ := List.mem_filter.1 hm'
+    have : m = m' := eq_of_nodup_addr kept hk m m' hm1 hm1' hab
+    subst this
+    simp only [beq_iff_eq] at hm2 hm2'
+    exact hd.1 (by rw [← hm2, hm2']; exact hd')
+
+/-- **dcLayout_wf**: for EVERY membership snapshot — any member ids, addresses and data centres,
+two ids at one address included, also at the local address — the map the watcher installs in the
+selector is well-formed: distinct data-centre names, every address once. -/
+theorem dcLayout_wf (a : Actor) (self : Nat) (ms : List MemberDc) : WF (setNodes a (dcLayout self ms)).dcs := by
+  have hss := sortById_sorted ms
+  have hspec := keepFirstAddr_spec self (sortById ms) (selfAddr self (sortById ms)) hss (selfAddr_covers self _ hss)
+  have hk := hspec.1
+  have hsorted := dcs_sorted ((keepFirstAddr self (sortById ms) (selfAddr self (sortById ms))).map (·.2.2))
+  generalize hkept : keepFirstAddr self (sortById ms) (selfAddr self (sortById ms)) = kept at hsorted hk
+  generalize hdcs : (kept.map (·.2.2)).foldr insertNat [] = dcs at hsorted
+  have hlay : dcLayout self ms = dcs.map (fun d => (d, (kept.filter (fun m => m.2.2 == d)).map (·.2.1))) := by
+    unfold dcLayout; simp only [hkept, hdcs]
+  have hids : ((dcLayout self ms).map (·.1)) = dcs := by
+    rw [hlay, List.map_map]
+    have : ((fun p : Nat × List Nat => p.1) ∘ fun d => (d, (kept.filter (fun m => m.2.2 == d)).map (·.2.1))) = id := rfl
+    rw [this, List.map_id]
+  have hfold : (setNodes a (dcLayout self ms)).dcs = (dcLayout self ms).map (fun p => (p.1, ⟨0, p.2⟩)) := by
+    unfold setNodes
+    simp only
+    rw [foldl_insertDc_sorted (dcLayout self ms) [] (by rw [hids]; exact hsorted) (by intro a ha; cases ha)]
+    simp
+  have hnd : dcs.Nodup := hsorted.imp (fun h => Nat.ne_of_lt h)
+  constructor
+  · rw [hfold, List.map_map]
+    have : ((fun p : Nat × Cycler => p.1) ∘ fun p : Nat × List Nat => (p.1, (⟨0, p.2⟩ : Cycler))) = (·.1) := rfl
+    rw [this, hids]; exact hnd
+  · unfold allNodes
+    rw [hfold, List.map_map, hlay, List.map_map]
+    exact flatten_by_dc_nodup kept hk dcs hnd
+
+/-- **wired_selection_sound**: whatever the membership snapshot, a successful selection from the map
+the watcher installed has no duplicates, excludes the local node, lies in that map and has the size
+the level requires (`select_sound` with `WF` discharged). `hl`: the local data centre is in the map
+(`local_dc_present`: it is, whenever the snapshot lists the local member). -/
+theorem wired_selection_sound (a : Actor) (self : Nat) (ms : List MemberDc) (lvl : Level) (choice : List Nat)
+    (hl : ∃ c, getDc (setNodes a (dcLayout self ms)).dcs a.localDc = some c)
+    (hchoice : ∀ n, (lvl = .one → n = 1) → (lvl = .two → n = 2) → (lvl = .three → n = 3) →
+      (lvl = .one ∨ lvl = .two ∨ lvl = .three) → GoodChoice (setNodes a (dcLayout self ms)).dcs n choice) :
+    let b := setNodes a (dcLayout self ms)
+    ∀ ns, (selectNodes b.local_ b.localDc b.total b.dcs lvl choice).1 = .ok ns →
+      ns.Nodup ∧ b.local_ ∉ ns ∧ (∀ x ∈ ns, x ∈ allNodes b.dcs) ∧
+      ns.length ≥ required lvl b.local_ b.localDc b.total b.dcs := by
+  intro b ns hns
+  have hsnd := select_sound b.local_ b.localDc b.total b.dcs lvl choice (dcLayout_wf a self ms) hl hchoice
+  obtain ⟨h1, h2, h3, h4, _⟩ := hsnd.2.2 ns hns
+  exact ⟨h1, h2, h3, h4⟩
+
+/-! ### The local data centre is in the installed map -/
+
+/-- A member of the input with an id no other entry of the input has is a member of the sorted list. -/
+theorem mem_sortById (ms : List MemberDc) (hid : (ms.map (·.1)).Nodup) (x : MemberDc) (hx : x ∈ ms) : x ∈ sortById ms := by
+  unfold sortById
+  suffices h : ∀ (l acc : List MemberDc), ((acc ++ l).map (·.1)).Nodup → (x ∈ acc ∨ x ∈ l) →
+      x ∈ l.foldl (fun acc m => insertById m acc) acc from h ms [] (by simpa using hid) (Or.inr hx)
+  intro l
+  induction l with
+  | nil => intro acc _ h; rcases h with h | h; exact h; cases h
+  | cons m rest ih =>
+    intro acc hnd h
+    simp only [List.foldl_cons]
+    have hnd' : ((insertById m acc ++ rest).map (·.1)).Nodup ∧ (∀ y ∈ acc, y.1 ≠ m.1) := by
+      rw [List.map_append, List.nodup_append] at hnd
+      obtain ⟨ha, hr, hdisj⟩ := hnd
+      rw [List.map_cons, List.nodup_cons] at hr
+      have hm_notin : ∀ y ∈ acc, y.1 ≠ m.1 := fun y hy heq =>
+        hdisj y.1 (List.mem_map.2 ⟨y, hy, rfl⟩) m.1 (by simp) heq
+      refine ⟨?_, hm_notin⟩
+      rw [List.map_append, List.nodup_append]
+      refine ⟨?_, hr.2, ?_⟩
+      · -- ids of `insertById m acc`: those of `acc` plus `m.1`
+        have key : ∀ (l2 : List MemberDc), (l2.map (·.1)).Nodup → (∀ y ∈ l2, y.1 ≠ m.1) → ((insertById m l2).map (·.1)).Nodup := by
+          intro l2
+          induction l2 with
+          | nil => intro _ _; simp [insertById]
+          | cons y ys ih2 =>
+            intro hn hne
+            rw [List.map_cons, List.nodup_cons] at hn
+            simp only [insertById]
+            split
+            · rw [List.map_cons, List.nodup_cons]
+              refine ⟨?_, by rw [List.map_cons, List.nodup_cons]; exact hn⟩
+              intro hin
+              obtain ⟨z, hz, hze⟩ := List.mem_map.1 hin
+              exact hne z hz hze
+            · split
+              · rename_i _ heq
+                exact absurd heq.symm (hne y List.mem_cons_self)
+              · rw [List.map_cons, List.nodup_cons]
+                refine ⟨?_, ih2 hn.2 (fun z hz => hne z (List.mem_cons_of_mem _ hz))⟩
+                intro hin
+                obtain ⟨z, hz, hze⟩ := List.mem_map.1 hin
+                rcases mem_insertById m z ys hz with rfl | hz
+                · exact hne y List.mem_cons_self hze.symm
+                · exact hn.1 (List.mem_map.2 ⟨z, hz, hze⟩)
+        exact key acc ha hm_notin
+      · intro a ha' b hb heq
+        obtain ⟨z, hz, rfl⟩ := List.mem_map.1 ha'
+        rcases mem_insertById m z acc hz with rfl | hz
+        · exact hr.1 (heq ▸ hb)
+        · exact hdisj z.1 (List.mem_map.2 ⟨z, hz, rfl⟩) b (List.mem_cons_of_mem _ hb) heq
+    apply ih _ hnd'.1
+    rcases h with h | h
+    · exact Or.inl (mem_insertById_other m x (hnd'.2 x h) acc h)
+    · rcases List.mem_cons.1 h with rfl | h
+      · exact Or.inl (mem_insertById_self x acc)
+      · exact Or.inr h
 
 theorem getDc_map_mk (layout : List (Nat × List Nat)) (d : Nat) (ns : List Nat) (h : (d, ns) ∈ layout)
     (hnd : (layout.map (·.1)).Nodup) :
@@ -343,30 +449,30 @@ theorem getDc_map_mk (layout : List (Nat × List Nat)) (d : Nat) (ns : List Nat)
       rw [if_neg this]
       exact ih h' hnd.2
 
-/-- **local_dc_present**: when the membership snapshot (distinct node ids) contains the local
-member and no member with a smaller id sits at the local address, the local data centre is in the
-installed map and lists the local address: the remaining hypothesis `hl` of `wired_selection_sound`
-holds, and the local node counts in the quorum sizes of its own data centre. -/
+/-- **local_dc_present**: when the membership snapshot (distinct node ids: they are map keys) lists
+the local member, the local data centre is in the installed map and lists the local address - whatever
+other ids claim that address (fix D30).  So `hl` of `wired_selection_sound` holds, and the local node
+counts in the quorum sizes of its own data centre. -/
 theorem local_dc_present (a : Actor) (ms : List MemberDc) (hid : (ms.map (·.1)).Nodup)
-    (self : MemberDc) (hself : self ∈ ms) (hfirst : ∀ x ∈ ms, x.2.1 = self.2.1 → self.1 ≤ x.1) :
-    ∃ c, getDc (setNodes a (dcLayout ms)).dcs self.2.2 = some c ∧ self.2.1 ∈ c.nodes := by
-  obtain ⟨hsorted, hmem⟩ := sortById_spec ms hid
-  have hkept : self ∈ keepFirstAddr (sortById ms) [] :=
-    keepFirstAddr_keeps (sortById ms) [] self hsorted ((hmem self).2 hself) (by simp)
-      (fun x hx he => hfirst x ((hmem x).1 hx) he)
-  have hdsorted := dcs_sorted ((keepFirstAddr (sortById ms) []).map (·.2.2))
-  generalize hk : keepFirstAddr (sortById ms) [] = kept at hkept hdsorted
+    (self : MemberDc) (hself : self ∈ ms) :
+    ∃ c, getDc (setNodes a (dcLayout self.1 ms)).dcs self.2.2 = some c ∧ self.2.1 ∈ c.nodes := by
+  have hss := sortById_sorted ms
+  have hspec := keepFirstAddr_spec self.1 (sortById ms) (selfAddr self.1 (sortById ms)) hss (selfAddr_covers self.1 _ hss)
+  have hkept : self ∈ keepFirstAddr self.1 (sortById ms) (selfAddr self.1 (sortById ms)) :=
+    hspec.2.2.2 self (mem_sortById ms hid self hself) rfl
+  have hdsorted := dcs_sorted ((keepFirstAddr self.1 (sortById ms) (selfAddr self.1 (sortById ms))).map (·.2.2))
+  generalize hk : keepFirstAddr self.1 (sortById ms) (selfAddr self.1 (sortById ms)) = kept at hkept hdsorted
   generalize hdcs : (kept.map (·.2.2)).foldr insertNat [] = dcs at hdsorted
-  have hlay : dcLayout ms = dcs.map (fun d => (d, (kept.filter (fun m => m.2.2 == d)).map (·.2.1))) := by
+  have hlay : dcLayout self.1 ms = dcs.map (fun d => (d, (kept.filter (fun m => m.2.2 == d)).map (·.2.1))) := by
     unfold dcLayout; simp only [hk, hdcs]
-  have hids : ((dcLayout ms).map (·.1)) = dcs := by
+  have hids : ((dcLayout self.1 ms).map (·.1)) = dcs := by
     rw [hlay, List.map_map]
     have : ((fun p : Nat × List Nat => p.1) ∘ fun d => (d, (kept.filter (fun m => m.2.2 == d)).map (·.2.1))) = id := rfl
     rw [this, List.map_id]
-  have hfold : (setNodes a (dcLayout ms)).dcs = (dcLayout ms).map (fun p => (p.1, ⟨0, p.2⟩)) := by
+  have hfold : (setNodes a (dcLayout self.1 ms)).dcs = (dcLayout self.1 ms).map (fun p => (p.1, ⟨0, p.2⟩)) := by
     unfold setNodes
     simp only
-    rw [foldl_insertDc_sorted (dcLayout ms) [] (by rw [hids]; exact hdsorted) (by intro a ha; cases ha)]
+    rw [foldl_insertDc_sorted (dcLayout self.1 ms) [] (by rw [hids]; exact hdsorted) (by intro a ha; cases ha)]
     simp
   have hnd : dcs.Nodup := hdsorted.imp (fun h => Nat.ne_of_lt h)
   have hdin : self.2.2 ∈ dcs := by
@@ -391,27 +497,38 @@ theorem local_dc_present (a : Actor) (ms : List MemberDc) (hid : (ms.map (·.1))
   · exact List.mem_map.2 ⟨self, List.mem_filter.2 ⟨hkept, by simp⟩, rfl⟩
 
 /-- **wired_selection_sound_of_snapshot**: `wired_selection_sound` with its remaining hypothesis
-discharged from the snapshot itself: distinct node ids (they are map keys), the local member listed,
-first at its address, in the data centre the selector was created for. -/
+discharged from the snapshot itself: distinct node ids (they are map keys) and the local member listed,
+in the data centre the selector was created for. -/
 theorem wired_selection_sound_of_snapshot (a : Actor) (ms : List MemberDc) (hid : (ms.map (·.1)).Nodup)
-    (self : MemberDc) (hself : self ∈ ms) (hfirst : ∀ x ∈ ms, x.2.1 = self.2.1 → self.1 ≤ x.1)
-    (hdc : a.localDc = self.2.2) (lvl : Level) (choice : List Nat)
+    (self : MemberDc) (hself : self ∈ ms) (hdc : a.localDc = self.2.2) (lvl : Level) (choice : List Nat)
     (hchoice : ∀ n, (lvl = .one → n = 1) → (lvl = .two → n = 2) → (lvl = .three → n = 3) →
-      (lvl = .one ∨ lvl = .two ∨ lvl = .three) → GoodChoice (setNodes a (dcLayout ms)).dcs n choice) :
-    let b := setNodes a (dcLayout ms)
+      (lvl = .one ∨ lvl = .two ∨ lvl = .three) → GoodChoice (setNodes a (dcLayout self.1 ms)).dcs n choice) :
+    let b := setNodes a (dcLayout self.1 ms)
     ∀ ns, (selectNodes b.local_ b.localDc b.total b.dcs lvl choice).1 = .ok ns →
       ns.Nodup ∧ b.local_ ∉ ns ∧ (∀ x ∈ ns, x ∈ allNodes b.dcs) ∧
       ns.length ≥ required lvl b.local_ b.localDc b.total b.dcs := by
-  obtain ⟨c, hc, _⟩ := local_dc_present a ms hid self hself hfirst
-  exact wired_selection_sound a ms lvl choice ⟨c, by rw [hdc]; exact hc⟩ hchoice
+  obtain ⟨c, hc, _⟩ := local_dc_present a ms hid self hself
+  exact wired_selection_sound a self.1 ms lvl choice ⟨c, by rw [hdc]; exact hc⟩ hchoice
 
 /-- Defect D21 (pinned wiring): two member ids at one address put it into the map twice; the map
 is not well-formed and `All` returns the address twice.  The current wiring lists it once. -/
 theorem legacy_wiring_duplicates :
     let ms : List MemberDc := [(0, 100, 1), (1, 101, 1), (2, 102, 1), (3, 102, 1)]
-    dcLayoutLegacy ms = [(1, [100, 101, 102, 102])] ∧ dcLayout ms = [(1, [100, 101, 102])] ∧
+    dcLayoutLegacy ms = [(1, [100, 101, 102, 102])] ∧ dcLayout 0 ms = [(1, [100, 101, 102])] ∧
     (selectNodes 100 1 4 (setNodes { local_ := 100, localDc := 1 } (dcLayoutLegacy ms)).dcs .all []).1 = .ok [101, 102, 102] ∧
-    (selectNodes 100 1 3 (setNodes { local_ := 100, localDc := 1 } (dcLayout ms)).dcs .all []).1 = .ok [101, 102] := by
+    (selectNodes 100 1 3 (setNodes { local_ := 100, localDc := 1 } (dcLayout 0 ms)).dcs .all []).1 = .ok [101, 102] := by
+  decide
+
+/-- Defect D30 (the wiring between the fixes for D21 and D30): the local node (id 9) restarted at its
+address 100 in data centre 2 while its old id 1 is still listed at that address in data centre 0: the
+first-member-per-address rule filed the local address under data centre 0, the local data centre was
+missing from the map and `One` returned TWO nodes.  The current wiring keeps the local address in the
+local data centre and `One` returns one node. -/
+theorem legacy_local_address_taken :
+    let ms : List MemberDc := [(9, 100, 2), (1, 100, 0), (2, 101, 0), (3, 102, 1)]
+    dcLayoutD21 ms = [(0, [100, 101]), (1, [102])] ∧ dcLayout 9 ms = [(0, [101]), (1, [102]), (2, [100])] ∧
+    (selectNodes 100 2 3 (setNodes { local_ := 100, localDc := 2 } (dcLayoutD21 ms)).dcs .one [0, 1]).1 = .ok [101, 102] ∧
+    (selectNodes 100 2 3 (setNodes { local_ := 100, localDc := 2 } (dcLayout 9 ms)).dcs .one [0]).1 = .ok [101] := by
   decide
 
 end Datacake.Selector
